@@ -946,6 +946,12 @@ class Interp:
                 if is_sym(x) and x.sort() == z3.IntSort():
                     parts.append(PY_STR_INT(x))  # str(int): an uninterpreted rendering (the same number gives the same text)
                     continue
+                if isinstance(x, ObjMethod):
+                    x = x.value
+                if is_obj(x):
+                    # the text of an object we do not look into: an unknown but fixed function of the object
+                    parts.append(z3.Function("obj.str", OBJ_SORT, z3.StringSort())(x))
+                    continue
             return Opaque("fstring")
         if not parts:
             return ""
